@@ -33,39 +33,57 @@ import TshVerif.Lemmas.BashTotal
 namespace Tsh.C06
 open Tsh Tsh.Tr Tsh.Parser
 
+theorem parseRaw_good (fs : FileSys) (main : String) : Good (parseRaw fs main) (fun p => stmtsP p.body) := by
+  have S := stmtIH_all exprIH_all
+  unfold parseRaw
+  split
+  · trivial
+  · split
+    · trivial
+    · split
+      · trivial
+      · dsimp only
+        have he := evalProgram_ok S (fileOK_all S (fs.files.length + 1)) fs main [] (fuelFor ‹Array Tok›.size) { toks := ‹Array Tok›, pfx := "" }
+        split
+        · rename_i body s1 hee
+          exact he.ok hee
+        · trivial
+        · rename_i hp; exact he.np hp
+        · trivial
+
+theorem parse_good (fs : FileSys) (main : String) : Good (Parser.parse fs main) (fun p => stmtsP p.body) := by
+  have hr := parseRaw_good fs main
+  unfold Parser.parse
+  split
+  · rename_i raw s hraw
+    split
+    · rename_i b hcl
+      exact cleanProgram_ok hcl (hr.ok hraw)
+    · trivial
+  · trivial
+  · rename_i hp; exact hr.np hp
+  · trivial
+
 /-- **Every program the parser accepts is typed** (all file systems, all import graphs, all sources). -/
 theorem accepted_programs_are_typed (fs : FileSys) (main : String) (p : Parsed) (s : PSt)
-    (h : Parser.parse fs main = .ok p s) : PT.program p.body = true := by
-  obtain ⟨raw, hraw, hcl⟩ := parse_eq_clean h
-  have S := stmtIH_all exprIH_all
-  have hr : stmtsP raw.body := by
-    unfold parseRaw at hraw
-    split at hraw
-    · simp at hraw
-    · split at hraw
-      · simp at hraw
-      · split at hraw
-        · simp at hraw
-        · dsimp only at hraw
-          split at hraw
-          · rename_i body s1 he
-            simp only [PRes.ok.injEq] at hraw
-            obtain ⟨rfl, _⟩ := hraw
-            exact evalProgram_ok S (fileOK_all S _) _ _ _ _ _ _ _ he
-          · simp at hraw
-          · simp at hraw
-          · simp at hraw
-  exact cleanProgram_ok hcl hr
+    (h : Parser.parse fs main = .ok p s) : PT.program p.body = true :=
+  (parse_good fs main).ok h
 
 /-- the same for every imported file, at any depth of the import graph -/
 theorem accepted_files_are_typed (depth : Nat) (fs : FileSys) (path : String) (imported : Bool) (importing : List String)
     (p : Parsed) (s : PSt) (h : parseFile depth fs path imported importing = .ok p s) : PT.program p.body = true :=
-  fileOK_all (stmtIH_all exprIH_all) depth fs path imported importing p s h
+  (fileOK_all (stmtIH_all exprIH_all) depth fs path imported importing).ok h
+
+/-- **The parser never reaches one of its crash sites**: the places where parser.go would index a slice out of range or
+    use a result that is not there (argument lists of builtins after their arity check, the parameter that belongs to an
+    argument, the first name of a definition, the value of a compound assignment) - for all inputs. -/
+theorem parser_never_panics (fs : FileSys) (main : String) : Parser.parse fs main ≠ .panic :=
+  (parse_good fs main).np
 
 /-- every expression the expression parser returns is typed and has a type of the language -/
 theorem parsed_expressions_are_typed (fuel : Nat) (ctx : Ctx) (hc : CtxOK ctx) (s s' : PSt) (e : Expr)
     (h : evalExpression fuel ctx s = .ok e s') : PT.expr e = true ∧ PT.known (Expr.valueType e) = true :=
-  have he := (exprIH_all fuel).expression ctx hc s e s' h
+  have he := ((exprIH_all fuel).expression ctx hc).ok s e s' h
   ⟨he, expr_known e he⟩
 
 /-- the parser's guarantee implies the emitters' discipline, except for the two constructs of `strict` -/
